@@ -249,6 +249,10 @@ func ruleR15_2(p *Program, r *Report) {
 			if len(errorResults(c)) == 0 {
 				continue
 			}
+			if recordsItself(tr, c) {
+				r.OK("R15.2", key, p.InstrPos(c), "a helper on the same receiver whose every non-nil result is the value it has just stored in ."+tr.Sticky)
+				continue
+			}
 			t := NewErrTrack(p, fn, c, KindNonNil, tr)
 			isRet := func(in ssa.Instruction) bool {
 				ret, ok := in.(*ssa.Return)
